@@ -294,6 +294,7 @@ func run(e *core.Env) {
 			dport = []uint16{0, 80, 443, 65535, uint16(tp.Intn(65536))}[tp.Intn(5)]
 		}
 		sport := uint16(1024 + tp.Intn(60000))
+		var quoted []byte
 		switch mode := tp.Intn(5); {
 		case force != nil:
 			si, proto, sport, dport = force.si, force.proto, force.sport, force.dport
@@ -320,6 +321,24 @@ func run(e *core.Env) {
 				si, sport, dport = fl.si, fl.sport, fl.dport
 			}
 			e.Probe("inbound_next_to_an_earlier_tuple")
+		case mode == 3 && len(prevIn)+len(prevOut) > 0 && tp.Chance(1, 2):
+			// an ICMPv6 error message (destination unreachable, packet too big, time exceeded,
+			// parameter problem) that quotes a packet of an earlier flow between R and this
+			// router, as R would have sent it: whatever R remembers about that flow - admitted or
+			// refused - an ICMPv6 packet is judged as what it is
+			k := tp.Intn(len(prevIn) + len(prevOut))
+			if k < len(prevIn) {
+				fl := prevIn[k]
+				si = fl.si
+				quoted = packet(R.IP, nodes[si].IP, fl.proto, fl.dport, fl.sport, []byte("quoted"))
+			} else {
+				fl := prevOut[k-len(prevIn)]
+				si = fl.si
+				quoted = packet(R.IP, nodes[si].IP, fl.proto, fl.sport, fl.dport, []byte("quoted"))
+			}
+			proto = 58
+			sport = uint16(1+tp.Intn(4))<<8 | uint16(tp.Intn(8)) // type and code
+			e.Probe("inbound_icmp6_error_quoting_an_earlier_flow")
 		}
 		sender := nodes[si]
 		innerSrc, innerDst := sender.IP, R.IP
@@ -361,6 +380,9 @@ func run(e *core.Env) {
 			lie = "unsealed"
 		}
 		payload := []byte(fmt.Sprintf("IN%05d:%x", seq, tp.Bytes(4)))
+		if quoted != nil && proto == 58 {
+			payload = append(quoted, payload...)
+		}
 		pkt := packet(innerSrc, innerDst, proto, sport, dport, payload)
 		if lie == "not-ipv6" {
 			pkt[0] = byte([]int{4, 0, 5, 7, 15}[tp.Intn(5)])<<4 | pkt[0]&0x0f
